@@ -1235,14 +1235,19 @@ func checkAvlNext(c *core.Ctx, pkg *packages.Package) {
 		if !ok || be.Op != token.LOR {
 			return true
 		}
-		if s, ok := ast.Unparen(be.X).(*ast.SelectorExpr); ok && core.IsFieldSel(info, s, "AvlNode", "Deleted") {
-			if cmp, ok := ast.Unparen(be.Y).(*ast.BinaryExpr); ok && cmp.Op == token.NEQ {
+		// the two disjuncts in either order
+		dx, vy := be.X, be.Y
+		if _, isSel := ast.Unparen(dx).(*ast.SelectorExpr); !isSel {
+			dx, vy = be.Y, be.X
+		}
+		if s, ok := ast.Unparen(dx).(*ast.SelectorExpr); ok && core.IsFieldSel(info, s, "AvlNode", "Deleted") {
+			if cmp, ok := ast.Unparen(vy).(*ast.BinaryExpr); ok && cmp.Op == token.NEQ {
 				l, lok := ast.Unparen(cmp.X).(*ast.SelectorExpr)
 				r, rok := ast.Unparen(cmp.Y).(*ast.SelectorExpr)
 				if lok && rok {
 					if core.IsFieldSel(info, r, "AvlNode", "Value") && core.IsFieldSel(info, l, "AvlIterator", "value") ||
 						core.IsFieldSel(info, l, "AvlNode", "Value") && core.IsFieldSel(info, r, "AvlIterator", "value") {
-						delCond, valCond, whole = be.X, be.Y, be
+						delCond, valCond, whole = dx, vy, be
 					}
 				}
 			}
